@@ -23,12 +23,12 @@ func builtinJSONParse(call FunctionCall) Value {
 		ctx.reviver = reviver
 	}
 
-	var root interface{}
+	var root jsonValue
 	err := json.Unmarshal([]byte(call.Argument(0).string()), &root)
 	if err != nil {
 		panic(call.runtime.panicSyntaxError(err.Error()))
 	}
-	value, exists := builtinJSONParseWalk(ctx, root)
+	value, exists := builtinJSONParseWalk(ctx, root.value)
 	if !exists {
 		value = Value{}
 	}
@@ -38,6 +38,55 @@ func builtinJSONParse(call FunctionCall) Value {
 		return builtinJSONReviveWalk(ctx, root, "")
 	}
 	return value
+}
+
+// jsonMember is one member of a decoded JSON object.
+type jsonMember struct {
+	name  string
+	value interface{}
+}
+
+// jsonValue decodes like interface{} does, except that an object becomes a
+// []jsonMember in the order of the text instead of an unordered map.
+type jsonValue struct {
+	value interface{}
+}
+
+func (v *jsonValue) UnmarshalJSON(text []byte) error {
+	dec := json.NewDecoder(bytes.NewReader(text))
+	tok, err := dec.Token()
+	if err != nil {
+		return err
+	}
+	switch tok {
+	case json.Delim('['):
+		list := []interface{}{}
+		for dec.More() {
+			var item jsonValue
+			if err := dec.Decode(&item); err != nil {
+				return err
+			}
+			list = append(list, item.value)
+		}
+		v.value = list
+	case json.Delim('{'):
+		members := []jsonMember{}
+		for dec.More() {
+			name, err := dec.Token()
+			if err != nil {
+				return err
+			}
+			var item jsonValue
+			if err := dec.Decode(&item); err != nil {
+				return err
+			}
+			members = append(members, jsonMember{name.(string), item.value})
+		}
+		v.value = members
+	default:
+		v.value = tok
+	}
+	return nil
 }
 
 func builtinJSONReviveWalk(ctx builtinJSONParseContext, holder *object, name string) Value {
@@ -87,11 +136,11 @@ func builtinJSONParseWalk(ctx builtinJSONParseContext, rawValue interface{}) (Va
 			}
 		}
 		return objectValue(ctx.call.runtime.newArrayOf(arrayValue)), true
-	case map[string]interface{}:
+	case []jsonMember:
 		obj := ctx.call.runtime.newObject()
-		for name, rawValue := range value {
-			if value, exists := builtinJSONParseWalk(ctx, rawValue); exists {
-				obj.put(name, value, false)
+		for _, member := range value {
+			if value, exists := builtinJSONParseWalk(ctx, member.value); exists {
+				obj.put(member.name, value, false)
 			}
 		}
 		return objectValue(obj), true
